@@ -162,17 +162,20 @@ class DataClassSerializeMixin(DataClassDictMixin, SerializableType):
             dict[str, Any]: The serialized object.
         """
 
-        # Store the options and mashumaro dialect for use by subclasses
-        if serialization_options is not None:
-            DataClassSerializeMixin.__serialization_options.update(serialization_options)
+        # Store the options and mashumaro dialect for use by subclasses.
+        # The state of an enclosing call (a custom _serialize may call back
+        # into this method) is put back afterwards
+        outer_options = DataClassSerializeMixin.__serialization_options
+        outer_dialect = DataClassSerializeMixin.__mashumaro_dialect
+        DataClassSerializeMixin.__serialization_options = dict(serialization_options or {})
         DataClassSerializeMixin.__mashumaro_dialect = mashumaro_dialect
 
         try:
             ret = self._serialize()
         finally:
             # Clear the kwargs and dialect
-            DataClassSerializeMixin.__serialization_options = {}
-            DataClassSerializeMixin.__mashumaro_dialect = None
+            DataClassSerializeMixin.__serialization_options = outer_options
+            DataClassSerializeMixin.__mashumaro_dialect = outer_dialect
 
         return ret
 
@@ -196,17 +199,19 @@ class DataClassSerializeMixin(DataClassDictMixin, SerializableType):
             T: The deserialized object.
         """
 
-        # Store the options and mashumaro dialect for use by subclasses
-        if serialization_options is not None:
-            DataClassSerializeMixin.__serialization_options.update(serialization_options)
+        # Store the options and mashumaro dialect for use by subclasses.
+        # The state of an enclosing call is put back afterwards
+        outer_options = DataClassSerializeMixin.__serialization_options
+        outer_dialect = DataClassSerializeMixin.__mashumaro_dialect
+        DataClassSerializeMixin.__serialization_options = dict(serialization_options or {})
         DataClassSerializeMixin.__mashumaro_dialect = mashumaro_dialect
 
         try:
             ret = cls._deserialize(value)
         finally:
             # Clear the kwargs and dialect
-            DataClassSerializeMixin.__serialization_options = {}
-            DataClassSerializeMixin.__mashumaro_dialect = None
+            DataClassSerializeMixin.__serialization_options = outer_options
+            DataClassSerializeMixin.__mashumaro_dialect = outer_dialect
 
         return ret
 
